@@ -233,6 +233,9 @@ def alone(world, sid, cfg):
         world.alone_calls += 1
         if rec.exception is not None:
             world._alone[key] = ('exc', rec.exception, None, None)
+        elif not isinstance(rec.responses, list) or len(rec.responses) != 1:
+            n = len(rec.responses) if hasattr(rec.responses, '__len__') else type(rec.responses).__name__
+            world._alone[key] = ('bad', f'one sentence in, {n} result lists out', None, None)
         else:
             resp = rec.responses[0]
             world._alone[key] = ('ok', refparser.canon_response(resp), resp, rec.per_sentence[0])
